@@ -196,3 +196,80 @@ proof fn lemma_c01_select_nothing(u: J, s: Strat, p: J, dm: DM)
 {
     lemma_none_val(p, dm, Set::empty());
 }
+
+// =====================================================================================================
+// C03: the digest -> disclosure map the verifier builds does not depend on the order of the presented strings, and a
+// repeated string (or two strings with the same digest) makes it undefined (the verifier rejects: DuplicateDigestError)
+// =====================================================================================================
+proof fn lemma_dmap_some_prefix(ds: Seq<Seq<char>>, n: int)
+    requires 0 <= n <= ds.len(), dmap_of(ds) is Some
+    ensures dmap_of(ds.take(n)) is Some
+    decreases ds.len() - n
+{
+    if n < ds.len() {
+        lemma_dmap_some_prefix(ds, n + 1);
+        assert(ds.take(n + 1).drop_last() =~= ds.take(n));
+    } else { assert(ds.take(n) =~= ds); }
+}
+proof fn lemma_dmap_dom(ds: Seq<Seq<char>>, i: int)
+    requires dmap_of(ds) is Some, 0 <= i < ds.len()
+    ensures dmap_of(ds)->Some_0.contains_key(disc_digest(ds[i])), disc_json(ds[i]) == Some(dmap_of(ds)->Some_0[disc_digest(ds[i])])
+    decreases ds.len()
+{
+    if i < ds.len() - 1 {
+        lemma_dmap_dom(ds.drop_last(), i);
+        assert(ds.drop_last()[i] == ds[i]);
+    }
+}
+proof fn lemma_dmap_repeat_rejected(ds: Seq<Seq<char>>, i: int, k: int)
+    requires 0 <= i < k < ds.len(), disc_digest(ds[i]) == disc_digest(ds[k])
+    ensures /*C03.repeat_rejected*/ dmap_of(ds) is None
+    decreases ds.len()
+{
+    if dmap_of(ds) is Some {
+        if k == ds.len() - 1 {
+            lemma_dmap_dom(ds.drop_last(), i);
+            assert(ds.drop_last()[i] == ds[i]);
+        } else {
+            assert(ds.drop_last()[i] == ds[i] && ds.drop_last()[k] == ds[k]);
+            lemma_dmap_repeat_rejected(ds.drop_last(), i, k);
+        }
+    }
+}
+// swapping two adjacent presented strings changes nothing (any permutation is a product of such swaps)
+spec fn swap_adj(ds: Seq<Seq<char>>, i: int) -> Seq<Seq<char>> { ds.update(i, ds[i + 1]).update(i + 1, ds[i]) }
+proof fn lemma_dmap_swap(ds: Seq<Seq<char>>, i: int)
+    requires 0 <= i, i + 1 < ds.len()
+    ensures /*C03.order_irrelevant*/ dmap_of(swap_adj(ds, i)) == dmap_of(ds)
+    decreases ds.len()
+{
+    let sw = swap_adj(ds, i);
+    if i + 1 == ds.len() - 1 {
+        // the swap is at the end: unfold twice
+        let p = ds.drop_last().drop_last();
+        assert(sw.drop_last().drop_last() =~= p);
+        assert(sw.last() == ds[i] && sw.drop_last().last() == ds[i + 1]);
+        assert(ds.drop_last().last() == ds[i] && ds.last() == ds[i + 1]);
+        let x = ds[i]; let y = ds[i + 1];
+        reveal_with_fuel(dmap_of, 3);
+        assert(ds.drop_last().drop_last() =~= p);
+        match dmap_of(p) {
+            None => {}
+            Some(m) => {
+                match (disc_json(x), disc_json(y)) {
+                    (Some(jx), Some(jy)) => {
+                        let dx = disc_digest(x); let dy = disc_digest(y);
+                        if !m.contains_key(dx) && !m.contains_key(dy) && dx != dy {
+                            assert(m.insert(dx, jx).insert(dy, jy) =~= m.insert(dy, jy).insert(dx, jx));
+                        }
+                    }
+                    _ => {}
+                }
+            }
+        }
+    } else {
+        assert(sw.drop_last() =~= swap_adj(ds.drop_last(), i));
+        assert(sw.last() == ds.last());
+        lemma_dmap_swap(ds.drop_last(), i);
+    }
+}
